@@ -5,7 +5,10 @@ pub mod c02;
 pub mod c03;
 pub mod c04;
 pub mod c05;
+pub mod c09;
 pub mod c10;
+pub mod c15;
+pub mod c18;
 pub mod files;
 pub mod hist;
 pub mod query;
@@ -18,7 +21,10 @@ pub fn run(ctx: &Ctx, part: &str) -> i32 {
         "C03" => c03::run(ctx),
         "C04" => c04::run(ctx),
         "C05" => c05::run(ctx),
+        "C09" => c09::run(ctx),
         "C10" => c10::run(ctx),
+        "C15" => c15::run(ctx),
+        "C18" => c18::run(ctx),
         other => {
             println!("INCONCLUSIVE property={} unknown check", other);
             2
